@@ -3,7 +3,8 @@
 From RU Require Import Base.Prelude Base.Utf8 Model.AsciiSet Gen.Tables Model.PercentEncoding
   Model.HostT Model.UrlRecord Model.Parser Model.Mime Model.Base64 Model.DataUrl Model.DataUrlTie Model.KnownC17
   Spec.Infra Spec.MimeSniff Spec.Fetch
-  Proofs.C18_BodyRef Proofs.C17_Tables Proofs.C17_Total Proofs.C17_Decode Proofs.C17_Main.
+  Proofs.C02_Parts Proofs.C18_BodyRef Proofs.C17_Tables Proofs.C17_Total Proofs.C17_Decode Proofs.C17_Main
+  Proofs.C17_Bridge Proofs.C17_Fragment Proofs.C17_Body Proofs.C17_BodyUrl.
 
 (* the byte classes and literals of data-url/src/lib.rs, regenerated from the source on every run, are
    the Standards': the C0-control / query / fragment percent-encode sets (as url/src/parser.rs defines
@@ -91,6 +92,70 @@ Theorem C17_mime_fallback : forall h m b, bytes h -> parse_header h = Ok (m, b) 
         \/ (Mime.parse (header_string t) = Ok None /\ record_of_mime m = text_plain_us_ascii)).
 Proof. exact parse_header_mime. Qed.
 Print Assumptions C17_mime_fallback.
+
+(* ---- opaque-path data: URLs: the three front ends agree ---- *)
+
+(* pretend_parse_data_url is the front of the URL parser: same C0 / space trimming, same tab / newline
+   skipping, same case-insensitive scheme; what it returns is the UTF-8 of what the parser has left
+   after "data:" *)
+Theorem C17_pretend_parse : forall s rem, usv_list s ->
+  parse_scheme CUrlParser (input_new_trim_c0 s) = Some (s_data, rem) ->
+  pretend_parse_data_url (utf8_encode s) = Ok (Some (utf8_encode rem)).
+Proof. exact pretend_parse_is_parse_scheme. Qed.
+Print Assumptions C17_pretend_parse.
+
+(* the fragment: what DataUrl::decode returns, run through to_percent_encoded, is the fragment of the
+   URL the parser model builds - for every string it accepts with scheme "data" and a text after
+   "data:" that does not begin with '/' (opaque path), any host functions *)
+Theorem C17_fragment : forall dbg hp ho hd s rem u, usv_list s ->
+  parse_scheme CUrlParser (input_new_trim_c0 s) = Some (s_data, rem) -> inp_split_prefix_char 47 rem = None ->
+  parse_url dbg hp ho hd None None s = POk u ->
+  forall m b body fragment, process_and_decode s = PdOk m b (inl body) fragment ->
+  fragment = url_fragment u.
+Proof. exact fragment_is_url_fragment. Qed.
+Check C17_fragment : forall dbg hp ho hd s rem u, usv_list s ->
+  parse_scheme CUrlParser (input_new_trim_c0 s) = Some (s_data, rem) -> inp_split_prefix_char 47 rem = None ->
+  parse_url dbg hp ho hd None None s = POk u ->
+  forall m b body fragment, process_and_decode s = PdOk m b (inl body) fragment ->
+  fragment = url_fragment u.
+Print Assumptions C17_fragment.
+
+(* percent-decoding does not see the percent-encoding the URL parser applies: for any marking of bytes
+   to be encoded that never marks '%' or a hex digit (the C0-control and the query percent-encode sets) *)
+Theorem C17_decode_encode : forall l, Forall mark_ok l ->
+  percent_decode (enc_marked l) = percent_decode (map fst l).
+Proof. exact (fun l => decode_marked (length l) l (Nat.le_refl _)). Qed.
+Print Assumptions C17_decode_encode.
+
+(* decode_without_base64 on the raw body = the Standard's percent-decode of the body with ASCII tab /
+   newlines removed, unless a tab / newline sits inside a percent escape (K3, F-C17-4) *)
+Theorem C17_body_ref : forall bs, k17_split_escape bs = false ->
+  fst (body_ref bs) = percent_decode (clean_body bs).
+Proof. exact (fun bs => body_ref_is_percent_decode (length bs) bs (Nat.le_refl _)). Qed.
+Print Assumptions C17_body_ref.
+
+(* the body: opaque path, no '?' in the header, no tab / newline inside an escape: the bytes
+   decode_without_base64 writes are the Fetch processor's percent-decoding of what follows the first
+   comma of the URL serialization without fragment (path state C0-control encoding and, after a '?' in
+   the body, query state encoding included) *)
+Theorem C17_body : forall dbg hp ho hd s rem u h B, usv_list s ->
+  parse_scheme CUrlParser (input_new_trim_c0 s) = Some (s_data, rem) -> inp_split_prefix_char 47 rem = None ->
+  parse_url dbg hp ho hd None None s = POk u ->
+  find_comma_before_fragment (utf8_encode rem) = Ok (Some (h, B)) ->
+  ~ In 63 h -> k17_split_escape B = false ->
+  exists mimeType encodedBody,
+    collect_until_comma (skipn 5 (url_without_fragment u)) = (mimeType, Some encodedBody)
+    /\ string_percent_decode encodedBody = fst (body_ref B).
+Proof. exact body_is_fetch_body. Qed.
+Check C17_body : forall dbg hp ho hd s rem u h B, usv_list s ->
+  parse_scheme CUrlParser (input_new_trim_c0 s) = Some (s_data, rem) -> inp_split_prefix_char 47 rem = None ->
+  parse_url dbg hp ho hd None None s = POk u ->
+  find_comma_before_fragment (utf8_encode rem) = Ok (Some (h, B)) ->
+  ~ In 63 h -> k17_split_escape B = false ->
+  exists mimeType encodedBody,
+    collect_until_comma (skipn 5 (url_without_fragment u)) = (mimeType, Some encodedBody)
+    /\ string_percent_decode encodedBody = fst (body_ref B).
+Print Assumptions C17_body.
 
 (* inside Known_C17 the statement fails: one witness per finding (toy host functions; none of the
    witnesses has an authority) *)
